@@ -283,6 +283,33 @@ Section Formatter.
     | Go false w => {| r_fs := w_fs w; r_status := Exit 1; r_trace := rev (w_trace w) |}
     | Stop s w => {| r_fs := w_fs w; r_status := s; r_trace := rev (w_trace w) |}
     end.
+  (* fmtCmd.Run over c.Files (non-empty): the files in order, each with its own temp
+     name; the first error ends the run (`return err`), later files are not looked at *)
+  Fixpoint fmt_files (v : variant) (c : cmd) (fl : list (path * path)) : world -> step bool :=
+    match fl with
+    | [] => ret_ true
+    | (target, tmp) :: rest =>
+        b <- fmt_file v c target tmp ;;
+        if b : bool then fmt_files v c rest else ret_ false
+    end.
+
+  Definition run_files (v : variant) (c : cmd) (fl : list (path * path)) (fs : fsys)
+             (sched : list outcome) (kill : nat) : result :=
+    match fmt_files v c fl {| w_fs := fs; w_sched := sched; w_left := kill; w_trace := [] |} with
+    | Go true w => {| r_fs := w_fs w; r_status := Exit 0; r_trace := rev (w_trace w) |}
+    | Go false w => {| r_fs := w_fs w; r_status := Exit 1; r_trace := rev (w_trace w) |}
+    | Stop s w => {| r_fs := w_fs w; r_status := s; r_trace := rev (w_trace w) |}
+    end.
+
+  (* fmtCmd.Run without files: formatStdInOut (no file-system call at all): -w is
+     errBadWriteFlag; otherwise format stdin, print the result unless checking.
+     Result: exit status and what is written to stdout *)
+  Definition fmt_stdin (c : cmd) (stdin : bytes) : status * bytes :=
+    match c with
+    | CmdWrite => (Exit 1, [])
+    | CmdCheck => (if part_ok stdin then Exit 0 else Exit 1, [])
+    | CmdPlain => match fmt1 stdin with Some o => (Exit 0, o) | None => (Exit 1, []) end
+    end.
 End Formatter.
 
 (* the instantiation for a plain x.evy file *)
@@ -382,5 +409,62 @@ Definition fmtcmd_case (x : sx) : sx :=
                    v c target tmp fs (map dec_outcome sched) (Z.to_nat kill) in
       Lst [Sym (s_ "result"); enc_status (r_status r); Lst (map enc_event (r_trace r));
            enc_file (files (r_fs r) target); enc_file (files (r_fs r) tmp)]
+  | _ => Sym (s_ "decode-error")
+  end.
+
+(* several files in one invocation:
+   (variant cmd dirw ((name tmp file ((member formatted|none)…) "joined")…) (outcome…) kill)
+   ↦ (result status (event…) (target-file…) (tmp-file…)) *)
+Fixpoint dec_mfiles (l : list sx) : list (path * path * option file * list (bytes * option bytes) * bytes) :=
+  match l with
+  | Lst [Str name; Str tmp; f; Lst ps; Str joined] :: t =>
+      let f0 := match f with
+                | Lst [Str d; Int m] => Some {| f_data := d; f_mode := Z.to_N m |}
+                | _ => None
+                end in
+      (name, tmp, f0, dec_parts ps, joined) :: dec_mfiles t
+  | _ => []
+  end.
+
+Fixpoint mfile_lookup {A} (l : list (path * path * option file * list (bytes * option bytes) * bytes))
+         (proj : path * path * option file * list (bytes * option bytes) * bytes -> A) (dflt : A) (src : bytes) : A :=
+  match l with
+  | [] => dflt
+  | x :: t => match x with
+              | (_, _, Some f, _, _) => if str_eqb (f_data f) src then proj x else mfile_lookup t proj dflt src
+              | _ => mfile_lookup t proj dflt src
+              end
+  end.
+
+Definition fmtmulti_case (x : sx) : sx :=
+  match x with
+  | Lst [Sym v; Sym c; Sym dw; Lst fls; Lst sched; Int kill] =>
+      let v := if str_eqb v (s_ "before-fix") then BeforeFix else Current in
+      let c := if str_eqb c (s_ "write") then CmdWrite else if str_eqb c (s_ "check") then CmdCheck else CmdPlain in
+      let ml := dec_mfiles fls in
+      let fs := {| files := fun q => (fix look l := match l with
+                                                   | [] => None
+                                                   | (name, _, f0, _, _) :: t => if str_eqb q name then f0 else look t
+                                                   end) ml;
+                   dirw := str_eqb dw (s_ "true") |} in
+      let tbl := flat_map (fun x => match x with (_, _, _, ps, _) => ps end) ml in
+      let parts := mfile_lookup ml (fun x => match x with (_, _, _, ps, _) => map fst ps end) [] in
+      let join := fun src (_ : list bytes) => mfile_lookup ml (fun x => match x with (_, _, _, _, j) => j end) [] src in
+      let fl := map (fun x => match x with (name, tmp, _, _, _) => (name, tmp) end) ml in
+      let r := run_files (tbl_lookup tbl) parts join v c fl fs (map dec_outcome sched) (Z.to_nat kill) in
+      Lst [Sym (s_ "result"); enc_status (r_status r); Lst (map enc_event (r_trace r));
+           Lst (map (fun p => enc_file (files (r_fs r) (fst p))) fl);
+           Lst (map (fun p => enc_file (files (r_fs r) (snd p))) fl)]
+  | _ => Sym (s_ "decode-error")
+  end.
+
+(* stdin mode: (cmd "stdin" formatted|none) ↦ (result status "stdout") *)
+Definition fmtstdin_case (x : sx) : sx :=
+  match x with
+  | Lst [Sym c; Str input; o] =>
+      let c := if str_eqb c (s_ "write") then CmdWrite else if str_eqb c (s_ "check") then CmdCheck else CmdPlain in
+      let f1 := fun (_ : bytes) => match o with Str f => Some f | _ => None end in
+      let r := fmt_stdin f1 c input in
+      Lst [Sym (s_ "result"); enc_status (fst r); Str (snd r)]
   | _ => Sym (s_ "decode-error")
   end.
